@@ -209,6 +209,22 @@ func readBufioSize(reader *bufio.Reader, size int64) ([]byte, error, bool) {
 	return result, e, len(result) == 0 && err == io.EOF
 }
 
+// skipBufioSpaces consumes leading white space (C isspace), newlines included,
+// as fscanf does before a numeric conversion.
+func skipBufioSpaces(reader *bufio.Reader) error {
+	for {
+		c, err := reader.ReadByte()
+		if err != nil {
+			return err
+		}
+		switch c {
+		case ' ', '\t', '\n', '\v', '\f', '\r':
+		default:
+			return reader.UnreadByte()
+		}
+	}
+}
+
 func readBufioLine(reader *bufio.Reader) ([]byte, error, bool) {
 	// a line ends with "\n" and only that is removed (a preceding "\r" is data)
 	result, err := reader.ReadBytes('\n')
